@@ -320,3 +320,35 @@ def gamess_punch(title, z, steps, hessian=None, approx_hessian=None, masses_amu=
         out += ["".join(f"{m:12.5f}" for m in masses_amu[k : k + 5]) for k in range(0, len(masses_amu), 5)]
         out += ["MODE    1   FREQUENCY=   2.35182 (CM**-1)", "----- END OF NORMAL MODES FOR -MOLPLT- PROGRAM -----"]
     return "\n".join(out) + "\n"
+
+
+# ---- ORCA output (the sections a geometry / energy / dipole reader needs; layout of ORCA 4 text output) -------------------
+def orca_log(z, steps, dipole_au=None, masses=None):
+    """steps: list of (xyz_bohr, scf_energies, final_energy); the last step is the final geometry of an optimisation."""
+    out = ["", "                                 *****************", "                                 * O   R   C   A *", "                                 *****************", ""]
+    for istep, (xyz_bohr, scf, final) in enumerate(steps):
+        if len(steps) > 1:
+            out += ["", f"                    *  GEOMETRY OPTIMIZATION CYCLE {istep + 1:3d}            *", ""]
+        out += ["---------------------------------", "CARTESIAN COORDINATES (ANGSTROEM)", "---------------------------------"]
+        for zi, r in zip(z, xyz_bohr / ANG):
+            out.append(f"  {sym(zi):<2s}{r[0]:14.6f}{r[1]:12.6f}{r[2]:12.6f}")
+        out += ["", "----------------------------", "CARTESIAN COORDINATES (A.U.)", "----------------------------", "  NO LB      ZA    FRAG     MASS         X           Y           Z"]
+        for i, (zi, r) in enumerate(zip(z, xyz_bohr)):
+            m = masses[i] if masses is not None else 2.0 * zi
+            out.append(f"{i:4d} {sym(zi):<2s}{float(zi):10.4f}{0:5d}{m:10.3f}{r[0]:12.6f}{r[1]:12.6f}{r[2]:12.6f}")
+        out += ["", "--------------", "SCF ITERATIONS", "--------------", "ITER       Energy         Delta-E        Max-DP      RMS-DP      [F,P]     Damp",
+                "               ***  Starting incremental Fock matrix formation  ***"]
+        prev = 0.0
+        for k, e in enumerate(scf):
+            out.append(f"{k:3d}{e:16.8f}{e - prev:16.10f}  0.000433  0.000433  0.001101  0.000179")
+            prev = e
+        out += ["", "               *****************************************************", f"               *           SCF CONVERGED AFTER {len(scf):3d} CYCLES          *",
+                "               *****************************************************", "", "-------------------------   --------------------", f"FINAL SINGLE POINT ENERGY  {final:20.12f}",
+                "-------------------------   --------------------", ""]
+    if dipole_au is not None:
+        out += ["-------------", "DIPOLE MOMENT", "-------------", "                                X             Y             Z",
+                f"Electronic contribution:  {-1.0:12.5f}{0.5:14.5f}{0.25:14.5f}", f"Nuclear contribution   :  {1.0 + dipole_au[0]:12.5f}{-0.5 + dipole_au[1]:14.5f}{-0.25 + dipole_au[2]:14.5f}",
+                "                        -----------------------------------------", f"Total Dipole Moment    :  {dipole_au[0]:12.5f}{dipole_au[1]:14.5f}{dipole_au[2]:14.5f}",
+                "                        -----------------------------------------", f"Magnitude (a.u.)       :  {float(np.linalg.norm(dipole_au)):12.5f}", ""]
+    out += ["                             ****ORCA TERMINATED NORMALLY****", ""]
+    return "\n".join(out) + "\n"
